@@ -8,7 +8,7 @@
    effects = cache loads / probes / stores and upstream GetMap / GetFeatureInfo requests. *)
 From Coq Require Import ZArith List Bool.
 Import ListNotations.
-From MP Require Import Grid Grid_proofs Limits Gen_wmts_parse Limits_proofs.
+From MP Require Import Grid Grid_proofs Limits Gen_wmts_parse Limits_proofs Gen_tile_limit Limits_gen_proofs.
 Local Open Scope Z_scope.
 
 (* A refusal never costs anything: whenever a tile service answers with an error - whatever the reason - no cache
@@ -163,3 +163,11 @@ Theorem one_upstream_request_per_meta_tile :
     upstream_requests (load_tile_coords ly cached cs) =
       length (dedup_coords (map (main_tile ly) (missing_tiles cached cs))).
 Proof. exact load_one_request_per_meta_tile. Qed.
+
+(* Tie to the source.  gen_over_tile_limit is regenerated on every run from the test in front of the "too many tiles"
+   error of CacheMapLayer._image (translator/specs/tile_limit.py -> gen/Gen_tile_limit.v, fail closed: the number
+   compared must be tile_grid[0] * tile_grid[1] of the very get_affected_tiles result whose coordinates are loaded, and
+   none of these names may be assigned a second time).  The model's over_tile_limit IS that test. *)
+Theorem tile_limit_test_is_generated_from_source : forall ly n,
+  over_tile_limit ly n = gen_over_tile_limit (lmax_tiles ly) n.
+Proof. exact over_tile_limit_as_generated. Qed.
